@@ -405,7 +405,7 @@ func Run(c *mc.Ctx, u mc.Unit, opt Options, oracle Oracle) {
 					panic(err)
 				}
 				if err := w2.LoadL1(ctx, st, false); err != nil {
-					c.Failf("world-sanity/l1-store-rejects-block", "dropped fork [%s]: %v", world.OpsString(vs[v-1]), err)
+					c.Failf(world.LoadKey(err, "world-sanity/l1-store-rejects-block"), "dropped fork [%s]: %v", world.OpsString(vs[v-1]), err)
 					return
 				}
 				if err := st.L1Info.VerifStore().Reorg(ctx, 1); err != nil {
@@ -417,7 +417,7 @@ func Run(c *mc.Ctx, u mc.Unit, opt Options, oracle Oracle) {
 		}
 	}
 	if err := w.LoadL1(ctx, st, false); err != nil {
-		c.Failf("world-sanity/l1-store-rejects-block", "scenario [%s]: %v", world.OpsString(p.Ops), err)
+		c.Failf(world.LoadKey(err, "world-sanity/l1-store-rejects-block"), "scenario [%s]: %v", world.OpsString(p.Ops), err)
 		return
 	}
 	if err := w.CheckL1(ctx, st, true); err != nil {
@@ -445,7 +445,7 @@ func Run(c *mc.Ctx, u mc.Unit, opt Options, oracle Oracle) {
 	built := 0
 	for _, blk := range w.L2Blocks {
 		if err := w.LoadL2Block(ctx, st, blk); err != nil {
-			c.Failf("world-sanity/l2-store-rejects-block", "scenario [%s]: %v", world.OpsString(p.Ops), err)
+			c.Failf(world.LoadKey(err, "world-sanity/l2-store-rejects-block"), "scenario [%s]: %v", world.OpsString(p.Ops), err)
 			return
 		}
 		if err := w.CheckL2(ctx, st, blk.Num); err != nil {
@@ -619,7 +619,7 @@ func (x *exec) l2ReorgEpilogue(p Params, states []state, lastL1 uint64) int {
 			continue
 		}
 		if err := w2.LoadL2Block(x.ctx, x.st, blk); err != nil {
-			c.Failf("world-sanity/l2-store-rejects-block", "scenario [%s] after Reorg(%d): %v", world.OpsString(ops2), k, err)
+			c.Failf(world.LoadKey(err, "world-sanity/l2-store-rejects-block"), "scenario [%s] after Reorg(%d): %v", world.OpsString(ops2), k, err)
 			return 0
 		}
 		last = blk.Num
